@@ -298,8 +298,8 @@ def capture_task(task):
 def run(ctx):
     k = 4 if ctx.thorough else 3
     tasks = [(w, k, False) for w in WORDS]
-    tasks += [(w, k + 2 if ctx.thorough else k + 1, True) for w in WORDS_SMALL]
-    ctx.log(f'wrap/rst: {len(tasks)} partitions, <= {k} words full alphabet, <= {k + (2 if ctx.thorough else 1)} words reduced alphabet')
+    tasks += [(w, k + 1, True) for w in WORDS_SMALL]
+    ctx.log(f'wrap/rst: {len(tasks)} partitions, <= {k} words full alphabet, <= {k + 1} words reduced alphabet')
     n_layout = 6 if ctx.thorough else 5
     ltasks = [(i, n_layout) for i in range(len(LINES))]
     ok_edits = [n for n in edits.EDIT_NAMES if n not in ('subpkg_service', 'recursive_oneof_first')]
@@ -364,7 +364,7 @@ def run(ctx):
     for key, v in sorted(allfails.items()):
         ctx.violation(key, f'[{v["space"]}] {v["kind"]} on {v["text"]!r} params={v["params"]}: {v["detail"]}',
                       dict(space=v['space'], text=v['text'], params=v['params'], kind=v['kind']))
-    ctx.extra['bound'] = f'words<={k} (full alphabet), <={k + (2 if ctx.thorough else 1)} (reduced); layouts <= {n_layout} lines; captured states: {len(ctasks)}'
+    ctx.extra['bound'] = f'words<={k} (full alphabet), <={k + 1} (reduced); layouts <= {n_layout} lines; captured states: {len(ctasks)}'
     ctx.assume('pandoc branch of rst() runs against an identity stand-in: only embedding safety, not wording, is judged there')
 
 
